@@ -181,4 +181,4 @@ def run(tier, t0):
     res.assumptions += ['32-bit wrapping semantics are those of u32::wrapping_*', 'registers not set by a record are unknown in the caller only if clear_caller_register is handed names the walker knows (C07.4)']
     return harness.finish(res, tier, t0, distinct=len(nontrivial) + 10, explanation=(
         'Operator/constant table of eval_win_expr extracted from MIR (same rules as C06.2 on u32, plus `=`, `.undef`, the six predefined constants and the `@` search-start rule), the alphabet of register names handed '
-        'to the FrameWalker interface checked against the x86 context table, clearing before evaluation, framedata-before-fpo priority, and the panic-edge inventory of the STACK WIN code.'))
+        'to the FrameWalker interface checked against the x86 context table, clearing before evaluation, framedata-before-fpo priority, the FPO formula table with the inputs each path may demand, literal precision, and the panic-edge inventory of the STACK WIN code.'))
